@@ -1007,6 +1007,12 @@ def inlined_expr(ctx, fn, expr):
     return inline_locals(ctx, fn, expr, nodes[0]) if nodes else expr
 
 
+def _pure_chain(e):
+    while isinstance(e, ast.Attribute):
+        e = e.value
+    return isinstance(e, ast.Name)
+
+
 def argument_slot_mismatches(ctx, fns, callees=None):
     """Call sites in `fns` whose positional arguments are plain names that are *also parameter names of the callee*,
     but sit in another parameter's slot (`f(cluster, output, missing, failed, ...)` against `def f(cluster, output, failed, missing, ...)`).
@@ -1027,7 +1033,16 @@ def argument_slot_mismatches(ctx, fns, callees=None):
             params = callee.bound_params
             if any(isinstance(a, ast.Starred) for a in args):
                 continue
-            pairs = [(a.id, params[i]) for i, a in enumerate(args) if i < len(params) and isinstance(a, ast.Name)]
+            def label(a):
+                # the name a reader sees: the local's name, or the last attribute of a chain (group.submitter_params.verbose -> verbose;
+                # single-use locals are inlined at load time, so `verbose = group...verbose; f(verbose)` arrives in this form)
+                if isinstance(a, ast.Name):
+                    return a.id
+                if isinstance(a, ast.Attribute) and _pure_chain(a):
+                    return a.attr.lstrip("_") or a.attr
+                return None
+
+            pairs = [(label(a), params[i]) for i, a in enumerate(args) if i < len(params) and label(a) is not None]
             rel = [(a, p) for a, p in pairs if a in params]
             if not rel:
                 continue
@@ -1037,7 +1052,7 @@ def argument_slot_mismatches(ctx, fns, callees=None):
                     continue
                 # the parameter called `a` must itself receive something else than `a` (f(x, job_id, job_id=job_id) is a deliberate double use)
                 own = ctx.arg_for(s, callee, a)
-                if own is None or (isinstance(own, ast.Name) and own.id == a) or own is callee.defaults.get(a):
+                if own is None or label(own) == a or own is callee.defaults.get(a):
                     continue
                 out.append((fn, s.node, a, p))
     return examined, out
@@ -1334,4 +1349,31 @@ def unknown_keywords(ctx, fns):
                 examined += 1
                 if vocab.get(k.arg, 0) == 0:
                     out.append((fn, s.node, k.arg))
+    return examined, out
+
+
+def is_value_of(ctx, fn, expr, at_node, call_node):
+    """`expr` evaluated at `at_node` is the result of `call_node`: it *is* that call expression, or a local whose unique reaching definition is it."""
+    if expr is call_node:
+        return True
+    if isinstance(expr, ast.Name) and at_node is not None:
+        ud = ctx.rd(fn).unique_def(at_node, expr.id)
+        return ud is not None and ud[1] is call_node
+    return False
+
+
+def unused_cli_parameters(ctx):
+    """click command functions (jade/cli) with a parameter - i.e. a command-line option or argument - that the body never reads: the option
+    is accepted and silently ignored.  -> (commands examined, [(fn, parameter)])"""
+    examined, out = 0, []
+    for fn in ctx.ix.functions.values():
+        if not fn.module.relpath.startswith("jade/cli/"):
+            continue
+        if not any(d and d.split(".")[-1] in ("option", "argument", "command") for d in fn.decorators):
+            continue
+        examined += 1
+        used = {x.id for x in ast.walk(fn.node) if isinstance(x, ast.Name) and isinstance(x.ctx, ast.Load)}
+        for p in fn.params + fn.kwonly:
+            if p not in used:
+                out.append((fn, p))
     return examined, out
